@@ -208,12 +208,12 @@ static const scen_t scen[] = {
         { {O_CREATE,0,0}, {O_POST,0,2}, {O_ADDTO,0,2}, {O_LOOKUP,0,0}, E },
         { {O_TAKE,0,0}, {O_USE,0,0}, {O_TAKE,0,0}, {O_USE,0,0}, E }, { E } } },
     /* two keys in the same bucket, one thread each, self-consumed */
-    { "two_keys_same_bucket", 2, 2, 3, {
+    { "two_keys_same_bucket", 2, 0, 3, {
         { {O_CREATE,0,0}, {O_POST,0,1}, {O_ADDTO,0,1}, {O_TAKE,0,0}, {O_USE,0,0}, {O_LOOKUP,1,0}, E },
         { {O_CREATE,1,0}, {O_POST,1,1}, {O_VERIFY,1,0}, {O_ADDTO,1,1}, {O_TAKE,1,0}, {O_USE,1,0}, E }, { E } } },
     /* ---- three-thread scripts: bound 1 in the quick tier, 2 in the thorough tier ---- */
     /* one creator, two consumers that may use the entry before the limit is announced */
-    { "one_creator_two_consumers", 3, 1, 2, {
+    { "one_creator_two_consumers", 3, 0, 2, {
         { {O_CREATE,0,0}, {O_POST,0,2}, {O_ADDTO,0,2}, E },
         { {O_TAKE,0,0}, {O_USE,0,0}, E },
         { {O_TAKE,0,0}, {O_USE,0,0}, E } } },
@@ -233,7 +233,7 @@ static const scen_t scen[] = {
         { {O_TAKE,0,0}, {O_USE,0,0}, E },
         { {O_LOOKUP,0,0}, {O_LOOKUP,0,0}, {O_LOOKUP,0,0}, E } } },
     /* a creator without consumers (limit 0) against a second creator with one consumer; the entry may be reclaimed and re-created */
-    { "zero_limit_and_recreate", 3, 1, 2, {
+    { "zero_limit_and_recreate", 3, 0, 2, {
         { {O_CREATE,0,0}, {O_ADDTO,0,0}, {O_LOOKUP,0,0}, E },
         { {O_CREATE,0,0}, {O_POST,0,1}, {O_VERIFY,0,0}, {O_ADDTO,0,1}, E },
         { {O_TAKE,0,0}, {O_USE,0,0}, E } } },
